@@ -78,7 +78,7 @@ def configs(tier):
         for loops in (-1, 1, 2, 3):
             for cache, prof in ((True, "tiny"), (3, "dur"), (4, "args"), (True, "size"), (3, "pad")):
                 out.append((cfg_of(3, loops, cache, 100, "E0", prof), 0))
-        out.append((cfg_of(4, 2, True, 100, "E0", "dur"), 0))
+        out.append((cfg_of(4, 2, True, 100, "E0", "pad"), 0))    # (4 frames x 'dur' = 68k states in one configuration)
         for loops, cache in ((1, False), (2, True)):
             for dur0 in (100, "DYN"):
                 out.append((cfg_of("I3", loops, cache, dur0, "E0" if dur0 == 100 else "Arel", "full"), 0))
